@@ -546,6 +546,10 @@ def abort_jobs(r, n: int, prefix: str) -> List[tuple]:
             # 2 barriers + calls + 13 sleeps + 52 gets; any point after seating
             cfg['interrupt_board'] = k
             cfg['interrupt_frac'] = r.random()
+            if q % 14 == 4:
+                cfg['interrupt_frac'] = 0.999999      # main's very last waiting point inside the board
+            elif q % 14 == 11:
+                cfg['interrupt_frac'] = 0.0           # ... and its first
             if q % 12 == 4:
                 # the operator runs the command line: main() with a board file
                 cfg['via_main'] = {'format': 'json', 'restart': 0}
